@@ -133,14 +133,16 @@ def sentence_pool():
         'nnv': sent([0, 0, 1], dep_over={(0, 2): 0.0}),   # parseable, 3 words
         'vv': sent([1, 1]),                       # no parse
         'long': sent([0, 0, 0, 0, 1]),            # longer than max_length
-        'nnnv': sent([0, 0, 0, 1]),               # several equal-score parses; needs the most pops
+        'nnnv': sent([0, 0, 0, 1]),               # exactly max_length words, several equal-score parses
+        # parseable, but its first goal is popped only after more steps than the budget allows (optimistic estimates first)
+        'hard': sent([0, 0, 0, 1], depval=0.0, dep_over={(0, 0): -4.0, (0, 2): -4.0, (1, 0): -4.0}),
         'n': sent([0]),                           # one word (unary chain at the root)
     }
     return pool
 
 
 def setup_budget():
-    """max_step chosen (by measurement on the real code) so that 'nnnv' exhausts it and every other sentence does not"""
+    """max_step chosen (by measurement on the real code) so that 'hard' exhausts it and every other sentence does not"""
     g = grammar()
     nat = S.Native(g)
     pops = {}
@@ -149,8 +151,8 @@ def setup_budget():
             continue
         out = nat.run(tag[None], dep[None], unary_penalty=0.5, use_beta=False, pruning_size=1, nbest=2)
         pops[name] = int(out['pops'][0])
-    others = max(v for k, v in pops.items() if k != 'nnnv')
-    if not pops['nnnv'] > others + 1:
+    others = max(v for k, v in pops.items() if k != 'hard')
+    if not pops['hard'] > others + 1:
         raise boot.HarnessError(f'cannot place a step budget: {pops}')
     return others + 1, pops
 
@@ -211,7 +213,7 @@ def explore_batches(shard):
         _state_log.clear()
         r, _ = run_batch([nm], pool, max_step, 1, 20, [])
         solo[nm] = canon_result(r[0])
-    expect_failed = {'vv', 'long', 'nnnv'}
+    expect_failed = {'vv', 'long', 'hard'}
     for nm, r in solo.items():
         if (r == 'FAILED') != (nm in expect_failed):
             raise boot.HarnessError(f'sentence pool does not behave as designed: {nm} -> {r}')
@@ -362,8 +364,8 @@ def check(tier, seed):
     if not os.environ.get('VERIF_NO_REAL_POOL'):
         real_pool_conformance(st, max_step)
     return core.finish(PROP, tier, seed, 'model_checking', st, t0,
-                       rule=('pool of 6 sentences for G3 (parseable creating new category ids, 3-word parseable, no parse, too long, step budget exhausted, equal-score ambiguity '
-                             '/ one word): every sequence of length <=3 with repetition and every permutation of subsets of size 4 (5 thorough) x processes {1,2,3,4} x max_chunk_size {0,1,2,20} '
+                       rule=('pool of 7 sentences for G3 (parseable creating new category ids, 3-word parseable, no parse, too long, exactly max_length words with equal-score ambiguity, '
+                             'step budget exhausted, one word): every sequence of length <=3 with repetition and every permutation of subsets of size 4 (5 thorough) x processes {1,2,3,4} x max_chunk_size {0,1,2,20} '
                              'x every completion schedule of the chunk tasks (ordered set partitions between polls) on a virtual pool, depccg/parsing.py unmodified; result[i] must equal the solo '
                              'result of sentence i. Shape faults: every +-1 deviation of every array dimension / token count / list length / category list at every batch position must raise '
                              'before any parse_sentence call. states = distinct (rule-cache key set, category table) at sentence boundaries; non-trivial = batch mixing parseable and failing sentences'),
